@@ -642,7 +642,10 @@ Lemma flush_wrapping_ok s s' :
 Proof.
   intros Hs H. unfold flush_wrapping in H. destruct (wrapping s) as [w|] eqn:Ew.
   - destruct (take_trailing_fragments w) as [w1 frags] eqn:Et.
-    bind_inv H ls Hls. ok_inv H.
+    bind_inv H lm Hlm. ok_inv H.
+    pose proof (wb_into_lines_markers_fst _ _ Hlm) as Hls.
+    pose proof (frags_vw _ (wb_into_lines_markers_frags _ _ Hlm)) as Hmk.
+    destruct lm as [ls mk]. cbn [fst snd] in *.
     pose proof Hs as (H2 & H3 & H4 & H5).
     destruct (take_frags_okW _ _ _ _ (H5 w Ew) Et) as [Hw1 Hfr].
     assert (Hs0 : sub_ok (set_wrapping s None)).
@@ -652,7 +655,7 @@ Proof.
       cbn [rline_width]. eapply wb_into_lines_okW; eassumption. }
     sprj. destruct A as (A2 & A3 & A4 & A5).
     split; [|split; [split; sprj; auto|sprj; exact C]].
-    apply sub_ok_mk; sprj; auto. rewrite vw_app. lia.
+    apply sub_ok_mk; sprj; auto. rewrite !vw_app. lia.
   - ok_inv H. split; [exact Hs|]. split; [apply same_refl|exact Ew].
 Qed.
 
